@@ -20,6 +20,7 @@ ASSUMES = ['alloc is called with n >= 0 (n < 0 is modelled and refuted: theorem 
 
 SIG_F1 = 'C16:find_next-absolute-index-vs-relative-size'
 SIG_FOREIGN = 'C16:free-below-offset-negative-index'
+SIG_D7 = 'C16:granted-client-id-refused-by-local-max-logins'
 
 
 # ---------------------------------------------------------------------------
@@ -350,6 +351,20 @@ def correspond(ctx):
                 'reserved_buffers': rng.choice([0, 0, 2]),
                 'initial_node_id': rng.choice([1000, 1000, 0, 1, 67108863, 67108861, 67108858])}
 
+    def shares(o, m):
+        io = o['input_channels'] + o['output_channels']
+        return {'A': (o['audio_buses'] - io) // m - o['reserved_audio_buses'], 'C': o['control_buses'] // m - o['reserved_control_buses'],
+                'B': o['buffers'] // m - o['reserved_buffers']}
+
+    def login_for(o):
+        # a reply "client id of m" under which the constructors do not raise (every kind keeps a non-empty share)
+        for _ in range(10):
+            m = rng.choice([None, 1, 2, 3, 4, 6, 8, 16, o['max_logins']])
+            n = m or o['max_logins']
+            if all(v >= 1 for v in shares(o, n).values()):
+                return ['L', rng.randrange(n), m]
+        return None
+
     def per_client(o):
         io = o['input_channels'] + o['output_channels']
         return {'A': (o['audio_buses'] - io) // o['max_logins'] - o['reserved_audio_buses'],
@@ -386,6 +401,16 @@ def correspond(ctx):
         ops += [['A', pc['A'], 0], ['C', pc['C'], 0], ['B', pc['B'], 0], ['A', 1, 0], ['F', 5], ['F', 0], ['N', 3], ['O', dict(o3)],
                 ['C', 1, 0], ['R', o3['max_logins'] - 1], ['A', 1, 0], ['C', 1, 0], ['B', 1, 0], ['R', o3['max_logins'] + 1], ['A', 2, 1]]
         scases.append({'opts': o1, 'client': rng.randrange(o1['max_logins']), 'ops': ops})
+    # (a'') login replies: the server grants "client id of m" with m different from options.max_logins
+    for _ in range(ctx.n(4, 24)):
+        o1 = rand_opts()
+        ops = [['A', 1, 0], ['C', 2, 0]]
+        for _ in range(3):
+            lg = login_for(o1)
+            if lg:
+                pc = shares(o1, lg[2] or o1['max_logins'])
+                ops += [lg, ['A', pc['A'], 0], ['C', 1, 0], ['C', pc['C'], 0], ['B', 1, 0], ['N', 2], ['F', 2], ['A', 1, 0]]
+        scases.append({'opts': o1, 'client': rng.randrange(o1['max_logins']), 'ops': ops})
     # (b) random object-level histories
     for _ in range(ctx.n(14, 80)):
         opts = rand_opts()
@@ -410,6 +435,10 @@ def correspond(ctx):
                 cur = rand_opts()
                 ops.append(['O', dict(cur)])
                 ops.append(['R', rng.choice([rng.randrange(cur['max_logins']), cur['max_logins']])])
+            elif r < 0.978:
+                lg = login_for(cur)
+                if lg:
+                    ops.append(lg)
             elif r < 0.985:
                 ops.append(['D', rng.choice([1, 2]), rng.randrange(1000)])
             else:
@@ -451,9 +480,7 @@ def correspond(ctx):
             if any(not e[6] for e in ents):
                 c.failures.append(Failure('correspondence', 'identity model broken (server %s allocator)' % which, replay={'server_case': sc}))
             sz, p, off = seg['params']
-            sitems.append('(%s, %s, %s, (%s, %s, %s), %s, %s)' % (
-                coq_opts(seg['opts']), cz(KIND_NO[which]), cz(seg['client']), cz(sz), cz(p), cz(off),
-                coq_ops(cops), coq_entries(ents)))
+            sitems.append('((%s, %s, %s), %s, %s)' % (cz(sz), cz(p), cz(off), coq_ops(cops), coq_entries(ents)))
             sinfo.append((sc, which, {'size': sz, 'pos': p, 'off': off, 'ops': cops}))
             c.evaluations += len(cops)
             c.count('server:%s-ops' % which, len(cops))
@@ -463,11 +490,24 @@ def correspond(ctx):
                 c.nontriv(json.dumps([sc['opts'], seg['client'], which, cops]))
         for op in sc['ops']:
             c.count('server-op:' + op[0])
-        for e in sr.get('setclient', []):
-            scitems.append('(%s, %s, %s, (%s, %s))' % (coq_opts(e['opts']), cz(e['c0']), cz(e['v']), cz(e['c1']), cbool(e['rebuilt'])))
-            scinfo.append((sc, e))
-            c.count('setclient:' + ('accepted' if e['rebuilt'] else 'refused'))
-    sbad, serrs = fw.check_shards(ctx, 'srv', HEADER, sitems, 'Eval vm_compute in bad_idx check_srv_seg cases.', shard=40)
+        ctrl = sr.get('ctrl', [])
+        if ctrl:
+            def sop(op):
+                if op[0] == 'R':
+                    return 'SSetClient %s' % cz(op[1])
+                if op[0] == 'O':
+                    return 'SSetOpts %s' % coq_opts(op[1])
+                return 'SLogin %s %s' % (cz(op[1]), '(Some %s)' % cz(op[2]) if op[2] is not None else 'None')
+            def sob(e):
+                pr = e['params']
+                return '(%s, %s, ((%s), (%s), (%s)))' % (cz(e['client']), '(Some %s)' % cz(e['sw']) if e['sw'] is not None else 'None',
+                                                       *[', '.join(cz(x) for x in pr[w]) for w in ('audio', 'control', 'buffer')])
+            scitems.append('(%s, %s, (%s : list sop), (%s : list sobservation))' % (
+                coq_opts(sc['opts']), cz(sc['client']), clist([sop(e['op']) for e in ctrl[1:]]), clist([sob(e) for e in ctrl])))
+            scinfo.append((sc, ctrl))
+            for e in ctrl[1:]:
+                c.count('ctrl:%s:%s' % (e['op'][0], 'rebuilt' if e['rebuilt'] else 'unchanged'))
+    sbad, serrs = fw.check_shards(ctx, 'srv', HEADER, sitems, 'Eval vm_compute in bad_idx (check_case true) cases.', shard=40)
     for e in serrs:
         c.failures.append(Failure('correspondence', 'coq evaluation of server cases failed: ' + e))
     for i in sbad[:3]:
@@ -475,15 +515,27 @@ def correspond(ctx):
         c.failures.append(Failure('correspondence', 'model and implementation disagree on the %s allocator built by Server for client %d (options %s): allocator-level history %s' % (
             which, sc['client'], sc['opts'], case), replay={'server_case': sc, 'allocator': which, 'case': case}))
     if scitems:
-        cb, ce = fw.check_shards(ctx, 'setclient', HEADER, scitems, 'Eval vm_compute in bad_idx check_setclient cases.', shard=200)
+        cb, ce = fw.check_shards(ctx, 'ctrl', HEADER, scitems, 'Eval vm_compute in bad_idx (check_ctrl false) cases.', shard=60)
         for e in ce:
-            c.failures.append(Failure('correspondence', 'coq evaluation of _set_client_id cases failed: ' + e))
+            c.failures.append(Failure('correspondence', 'coq evaluation of server control traces failed: ' + e))
+        local = set()
+        if cb:          # does the implementation behave like the guard on options.max_logins (D7)?
+            cb2, ce2 = fw.check_shards(ctx, 'ctrl_gl', HEADER, [scitems[i] for i in cb], 'Eval vm_compute in bad_idx (check_ctrl true) cases.', shard=60)
+            if not ce2:
+                local = set(cb) - set(cb[j] for j in cb2)
         for i in cb[:3]:
-            sc, e = scinfo[i]
-            c.failures.append(Failure('search', '_set_client_id(%d) on a server with client id %d and options %s: client id became %d, allocators rebuilt: %s '
-                                      '(ids outside 0..max_logins-1 must be refused and change nothing; ids inside must rebuild every allocator)' % (
-                                          e['v'], e['c0'], e['opts'], e['c1'], e['rebuilt']), signature='C16:set-client-id',
-                                      replay={'server_case': sc, 'setclient': e}, found_input=True, theorem='set_client_id_refuses_foreign_ids / set_client_id_rebuilds_from_current_options'))
+            sc, ctrl = scinfo[i]
+            hist = [e['op'] if e['op'][0] != 'O' else ['O', '...options...'] for e in ctrl[1:]]
+            last = ctrl[-1]
+            c.failures.append(Failure(
+                'search', 'Server options %s, first client id %d, control operations %s (R = _set_client_id, O = options assigned, L = login reply (id, max logins)): '
+                'client id / _max_logins / allocator constructor arguments after each are %s; the model (ids refused iff outside 0..N-1 with N = the login count the '
+                'shares are computed with; a login reply stores the reported count BEFORE the allocators are rebuilt; shares per kind from its own options) differs%s' % (
+                    sc['opts'], sc['client'], hist, [(e['client'], e['sw'], e['params']) for e in ctrl],
+                    ' -- the implementation agrees with the guard on options.max_logins (granted ids >= the local option are refused)' if i in local else ''),
+                signature=SIG_D7 if i in local else 'C16:server-control',
+                replay={'server_case': sc, 'control_trace': ctrl}, found_input=True,
+                theorem='login_reply_installs_granted_share / set_client_id_refuses_foreign_ids / server_allocators_from_options'))
     if snode:
         nb, ne = fw.check_shards(ctx, 'srvnode', HEADER, snode, 'Eval vm_compute in bad_idx check_node cases.', shard=100)
         for e in ne:
@@ -539,8 +591,8 @@ def search(ctx, failures):
         for _ in range(4):
             logins = rng.choice([2, 3, 4])
             optsets.append({'max_logins': logins, 'input_channels': rng.choice([0, 1, 2]), 'output_channels': rng.choice([1, 2]),
-                            'audio_buses': 3 + logins * rng.choice([6, 7]) + rng.choice([0, 1]), 'control_buses': logins * rng.choice([5, 6]) + 1,
-                            'buffers': logins * rng.choice([4, 5]), 'reserved_audio_buses': rng.choice([0, 1, 2]),
+                            'audio_buses': 3 + logins * rng.choice([12, 14]) + rng.choice([0, 1]), 'control_buses': logins * rng.choice([10, 12]) + 1,
+                            'buffers': logins * rng.choice([8, 10]), 'reserved_audio_buses': rng.choice([0, 1, 2]),
                             'reserved_control_buses': rng.choice([3, 4]), 'reserved_buffers': rng.choice([0, 1, 3]), 'initial_node_id': 1000})
         dcases, dmeta = [], []
         for o in optsets[:8]:
@@ -555,26 +607,40 @@ def search(ctx, failures):
                 for kind, which in (('A', 'audio'), ('C', 'control'), ('B', 'buffer')):
                     ops += [[kind, 1, 0]] * (shares[which][0] + 1)
                 dcases.append({'opts': o, 'client': k, 'ops': ops})
-                dmeta.append(shares)
+                dmeta.append((shares, k, None))
+            # the same after a login reply "client id of m" with m different from options.max_logins (ids below and above the local option)
+            for m in (2 * o['max_logins'], max(1, o['max_logins'] - 1)):
+                sh_m = {'audio': ((o['audio_buses'] - io) // m, io, o['reserved_audio_buses']),
+                        'control': (o['control_buses'] // m, 0, o['reserved_control_buses']),
+                        'buffer': (o['buffers'] // m, 0, o['reserved_buffers'])}
+                if m > 32 or any(per <= resv for per, _, resv in sh_m.values()):
+                    continue
+                for gid in sorted(set([0, m - 1, min(m - 1, o['max_logins'])])):
+                    ops = [['L', gid, m]]
+                    for kind, which in (('A', 'audio'), ('C', 'control'), ('B', 'buffer')):
+                        ops += [[kind, 1, 0]] * (sh_m[which][0] + 1)
+                    dcases.append({'opts': o, 'client': 0, 'ops': ops})
+                    dmeta.append((sh_m, gid, m))
         dres = ctx.impl('c16_server', {'cases': dcases})['cases'] if dcases else []
-        for dc, shares, dr in zip(dcases, dmeta, dres):
+        for dc, (shares, gid, gm), dr in zip(dcases, dmeta, dres):
             if 'segments' not in dr:
                 continue
-            for seg in dr['segments']:
-                if seg['server'] != 0:
-                    continue
-                which = seg['which']
+            for which in ('audio', 'control', 'buffer'):
+                segs = [sg for sg in dr['segments'] if sg['server'] == 0 and sg['which'] == which]
                 per, base, resv = shares[which]
-                want = list(range(base + per * dc['client'] + resv, base + per * (dc['client'] + 1)))
-                got = [x[1][1] for x in seg['log'] if x[0][0] == 'a' and x[1][0] == 1]
+                want = list(range(base + per * gid + resv, base + per * (gid + 1)))
+                # all indices the client got after the last (re)construction request
+                got = [x[1][1] for sg in (segs if gm is not None else segs[-1:]) for x in sg['log'] if x[0][0] == 'a' and x[1][0] == 1]
+                if gm is not None:
+                    dc = dict(dc, login_reply={'granted_id': gid, 'max_logins': gm})
                 if got != want and 'C16:option-construction' not in seen:
                     seen.add('C16:option-construction')
                     ctor = {'AudioBus': 'audio', 'ControlBus': 'control', 'Buffer': 'buffer'}
                     name = [n for n, w in ctor.items() if w == which][0]
-                    found.append(Failure('search', 'Server options %s, client id %d: %d successive %s(1) objects got the indices %s, but the client\'s share of the '
-                                         '%s index space after its reserved indices is %s' % (dc['opts'], dc['client'], per + 1, name, got, which, want),
+                    found.append(Failure('search', 'Server options %s, %s: %d successive %s(1) objects got the indices %s, but the client\'s share of the '
+                                         '%s index space after its reserved indices is %s' % (dc['opts'], ('after the login reply (granted id %d, max logins %d)' % (gid, gm)) if gm is not None else 'client id %d' % gid, per + 1, name, got, which, want),
                                          signature='C16:option-construction',
-                                         replay={'options': dc['opts'], 'client': dc['client'], 'allocator': which, 'got': got, 'expected': want,
+                                         replay={'options': dc['opts'], 'client': gid, 'login_reply': dc.get('login_reply'), 'allocator': which, 'got': got, 'expected': want,
                                                  'replay_cmd': "sc3.init('nrt'); s = Server.default; set s.options fields; s._set_client_id(%d); [%s(1, s).%s for _ in range(%d)]" % (
                                                      dc['client'], name, 'bufnum' if which == 'buffer' else 'index', per + 1)},
                                          found_input=True, theorem='server_live_range_in_own_share'))
